@@ -62,6 +62,15 @@ def check(run):
                 p.append(dict(op="Peek", arg=0))
             p += [dict(op=rem, arg=0), dict(op="Peek", arg=0)]
             plans.append(p)
+    # fill f, take t, fill again past the next growth, drain: a buffer that slides, wraps or grows with a gap at its front
+    for kind in ("queue", "stack"):
+        ins, rem = ("Enqueue", "Dequeue") if kind == "queue" else ("Push", "Pop")
+        for f in ((16, 17, 32, 33, 40, 65) if run.quick() else (8, 9, 16, 17, 20, 32, 33, 40, 64, 65, 128, 129, 513)):
+            for t in sorted({f // 4, f // 4 + 1, f // 3, f // 2 - 1, f // 2, f - 1}):
+                for g in (f - t + 1, f, 2 * f):
+                    p = [dict(op="Reset", kind=kind)] + [dict(op=ins, arg=i + 1) for i in range(f)] + [dict(op=rem, arg=0)] * t
+                    p += [dict(op=ins, arg=f + i + 1) for i in range(g)] + [dict(op="Peek", arg=0)] + [dict(op=rem, arg=0)] * (f - t + g + 1)
+                    plans.append(p)
     # other element types: size 0 (struct{}: all values equal, written 0), 200 bytes, strings with the empty string
     for ty in ("empty", "big", "string"):
         for kind in ("queue", "stack"):
